@@ -150,6 +150,20 @@ func TestVerifC22ALPS(t *testing.T) {
 		if len(keys) == 0 {
 			return
 		}
+		// other extensions a server may list AFTER application_settings in EncryptedExtensions
+		eeExtra := rapid.IntRange(0, 7).Draw(rt, "ee_after_alps")
+		if eeExtra&1 != 0 && o.HasSNI {
+			s.ExtraEEExts = append(s.ExtraEEExts, vfExt{Type: extensionServerName})
+		}
+		if eeExtra&2 != 0 {
+			s.ExtraEEExts = append(s.ExtraEEExts, vfExt{Type: extensionSupportedCurves, Body: []byte{0, 4, 0, 29, 0, 23}})
+		}
+		if eeExtra&4 != 0 {
+			s.ExtraEEExts = append(s.ExtraEEExts, vfExt{Type: 0x3a3a, Body: []byte{0}})
+		}
+		if len(s.ExtraEEExts) > 0 {
+			st.Class(fmt.Sprintf("ee-extensions-after-alps=%d", len(s.ExtraEEExts)))
+		}
 		s.CertRequest = clientAuth != "none"
 		st.Class("client-auth=" + clientAuth)
 		scfg := vfServerConfig(keys[0], vfCertNames(sni)...)
